@@ -177,7 +177,8 @@ fn template_line(rng: &mut Rng, vocab: &[String]) -> String {
         }
     };
     let cs = |rng: &mut Rng| vocab[rng.below(vocab.len())].clone();
-    match rng.below(41) {
+    match rng.below(44) {
+        41..=43 => wide_layout(rng),
         0 => format!("\\count{}={} ", num(rng), num(rng)),
         1 => format!("\\catcode{}={} ", num(rng), num(rng)),
         2 => format!("\\dimen{}={} ", num(rng), dim(rng)),
@@ -277,6 +278,37 @@ fn template_line(rng: &mut Rng, vocab: &[String]) -> String {
             ][rng.below(50)]
             .to_string()
         }
+    }
+}
+
+/// Errors whose geometry is extreme: a token that is 1 .. 1000 characters wide (an undefined or a
+/// defined control sequence with a very long name), at column 0, in the middle or at the very end
+/// of a line that is itself 0 .. 2000 characters long, with single- or multi-byte padding. The
+/// error, its notes and every frame of its stack trace must still render.
+fn wide_layout(rng: &mut Rng) -> String {
+    const W: [usize; 20] = [0, 1, 2, 49, 50, 51, 98, 99, 100, 101, 102, 103, 127, 128, 129, 200, 255, 256, 257, 1000];
+    let pad = |rng: &mut Rng| {
+        let n = W[rng.below(W.len())];
+        let unit = ["a", "a", "b ", "\u{e9}", "\u{1d518}", "\t", "{}"][rng.below(7)];
+        let mut s = String::new();
+        while s.chars().count() < n {
+            s.push_str(unit);
+        }
+        s
+    };
+    let w = W[1 + rng.below(W.len() - 1)];
+    let name: String = format!("\\{}", "q".repeat(w.max(2) - 1));
+    let left = pad(rng);
+    let right = if rng.chance(1, 2) { pad(rng) } else { String::new() };
+    match rng.below(8) {
+        0 => format!("{left}{name} {right}"),
+        1 => format!("{left}\\advance{name} by 1 {right}"),
+        2 => format!("{left}\\let\\xa={name}\\xa {right}"),
+        3 => format!("\\def{name}#1#2{{#1\\undefinedcs #2}}{left}{name}{{x}}{{y}}{right}"),
+        4 => format!("\\def{name}#1{{#1}}{left}{name}"),
+        5 => format!("\\def{name}{{x\\count}}{left}\\def\\xa{{{name}}}\\xa {right}"),
+        6 => format!("{left}\\count1={} {right}\\count1=x", "7".repeat(w)),
+        _ => format!("{left}\\the{name}{right}\\the"),
     }
 }
 
